@@ -196,14 +196,21 @@ func (c *Conn) AsyncRead() {
 
 	// If is not EPOLLONESHOT, the reading event may be re-dispatched for more than
 	// once, here we reduce the duplicate reading events.
-	cnt := atomic.AddInt32(&c.readEvents, 1)
-	if cnt > 2 {
-		atomic.AddInt32(&c.readEvents, -1)
-		return
-	}
-	// Only handle it when it's the first reading event.
-	if cnt > 1 {
-		return
+	// The counter must never leave [0, 2]: a transient third increment that is
+	// undone after the running task has counted down to zero would leave it
+	// negative, and then two tasks run at the same time and never terminate.
+	for {
+		cnt := atomic.LoadInt32(&c.readEvents)
+		if cnt >= 2 {
+			return
+		}
+		if atomic.CompareAndSwapInt32(&c.readEvents, cnt, cnt+1) {
+			// Only handle it when it's the first reading event.
+			if cnt >= 1 {
+				return
+			}
+			break
+		}
 	}
 
 	g.IOExecute(func(pBuf *[]byte) {
